@@ -416,14 +416,33 @@ def validate_traces(trace_files, scratch, module="TraceCore.tla", cfg="TraceCore
             v["file"] = tf
             vs.append(v)
         return vs, nlines
-    res = parallel(one, trace_files, nproc or NCPU)
+    # bundle many small files into few TLC runs (JVM start-up dominates)
+    sizes = [(tf, sum(1 for _ in open(tf))) for tf in trace_files]
+    total = sum(n for _tf, n in sizes)
+    target = max(2000, min(50000, total // (2 * (nproc or NCPU)) + 1))
+    bundles, cur, curn = [], [], 0
+    for tf, n in sizes:
+        if n == 0:
+            continue
+        if cur and curn + n > target:
+            bundles.append(cur)
+            cur, curn = [], 0
+        cur.append(tf)
+        curn += n
+    if cur:
+        bundles.append(cur)
+    bdir = scratch.sub("bundles-%d" % len(os.listdir(scratch.dir)))
+    files = []
+    for i, b in enumerate(bundles):
+        if len(b) == 1:
+            files.append(b[0])
+            continue
+        bp = os.path.join(bdir, "b%d.ndjson" % i)
+        with open(bp, "wb") as out:
+            for tf in b:
+                with open(tf, "rb") as f:
+                    shutil.copyfileobj(f, out)
+        files.append(bp)
+    res = parallel(one, files, nproc or NCPU)
     verdicts = [v for vs, _n in res for v in vs]
     return verdicts, sum(n for _vs, n in res)
-
-
-def save_replay_text(pid, text, ext="scr"):
-    os.makedirs(os.path.join(OUT, "replay"), exist_ok=True)
-    p = os.path.join(OUT, "replay", "%s-%s.%s" % (pid, sha(text)[:10], ext))
-    with open(p, "w") as f:
-        f.write(text)
-    return p
